@@ -181,7 +181,19 @@ func mutateText(r *hx.Rand, base []byte, sh textShape, other func() []byte) ([]b
 		}
 		return 0, 0, false
 	}
-	switch r.Intn(26) {
+	switch r.Intn(28) {
+	case 26, 27:
+		// the value of a line replaced by something degenerate: one byte, a
+		// lone quote, an empty pair of quotes, a separator (with and without
+		// the blank that follows the separator in the well-formed file)
+		if lo, hi, ok := pickValue(); ok {
+			v := lyPick(r, "x", "'", "\"", "''", "\"\"", "-", ".", "0", "=", ":", "\\", "(", "[", "{", "$", "`", "#", "\t", "é", "\xff", ".freeze", "'.freeze", "x.", ",")
+			if r.Chance(2, 3) {
+				v = " " + v
+			}
+			return lySplice(b, lo, hi, []byte(v)), "tiny-value"
+		}
+		return b, "tiny-value"
 	case 0:
 		lo, _ := pickStanza()
 		return b[:lo], "trunc-stanza"
